@@ -338,3 +338,13 @@ func SortedHashes(s map[Hash]struct{}) []Hash {
 	sort.Slice(out, func(i, j int) bool { return bytes.Compare(out[i][:], out[j][:]) < 0 })
 	return out
 }
+
+// KeyByAddr finds the key with the given address (nil if none).
+func KeyByAddr(keys []*Key, addr string) *Key {
+	for _, k := range keys {
+		if k.Addr == addr {
+			return k
+		}
+	}
+	return nil
+}
